@@ -155,7 +155,7 @@ def pipeline_diag(work, driver, cases, limit=400, tag="pipe"):
     core.run_cases(driver, "run", os.path.join(d, "cases.ndjson"), os.path.join(d, "trace.ndjson"))
     cfg = os.path.join(d, "P.cfg")
     with open(cfg, "w") as fh:
-        fh.write("SPECIFICATION PSpec\nCONSTANTS NSMaxNodes = 9 NSMaxEdges = 14 ACCUMULATE = FALSE RESET_TREE = TRUE\nPOSTCONDITION TraceAccepted\nCHECK_DEADLOCK FALSE\n")
+        fh.write("SPECIFICATION PSpec\nCONSTANTS NSMaxNodes = 9 NSMaxEdges = 14 CBMaxNodes = 14 CBMaxEdges = 30 POMaxNodes = 24 ACCUMULATE = FALSE RESET_TREE = TRUE\nPOSTCONDITION TraceAccepted\nCHECK_DEADLOCK FALSE\n")
     cmd = core.java_cmd(work, d) + ["-workers", "1", "-metadir", os.path.join(d, "meta"), "-noGenerateSpecTE", "-config", cfg,
                                     os.path.join(work.specdir, "PipelineTrace.tla")]
     t0 = time.time()
@@ -181,7 +181,7 @@ def pipeline_diag(work, driver, cases, limit=400, tag="pipe"):
         return None
     if drift:
         log("[pipe] DRIFT (diagnostic, not a verdict): %s" % json.dumps(drift, sort_keys=True))
-    return dict(name="PipelineTrace.tla: %d stage snapshots of %d calls against the phase contracts of Pipeline.tla (layer 2) and %d network-simplex layerings predicted exactly by NetSimplexOps.tla (layer 3), %d drifting" % (stats["stages"], stats["calls"], stats["l3predictions"], stats["drift"]),
+    return dict(name="PipelineTrace.tla: %d stage snapshots of %d calls against the phase contracts of Pipeline.tla (layer 2) and %d phase-1 / network-simplex results predicted exactly by CycleBreakOps / NetSimplexOps / PositionOps (layer 3), %d drifting" % (stats["stages"], stats["calls"], stats["l3predictions"], stats["drift"]),
                 generated=int(m.group(1)), distinct=int(m.group(2)), wall=time.time() - t0, ok=True, drift=drift)
 
 
@@ -194,6 +194,38 @@ def t1_model(work, tier):
         raise HarnessError("Pipeline.tla: composition theorem T1 fails at small scope:\n" + r["out"][-2500:])
     return dict(name="Pipeline.tla T1 (edge-list surgery is the identity on the edge bag), all lists with <= %d nodes/edges x all reversal sets x all feasible layerings" % n,
                 generated=r["generated"], distinct=r["distinct"], wall=r["wall"], ok=True)
+
+
+def mech_model(work, name, spec, cfg, what, workers=None, timeout=3000):
+    """an exhaustive layer-3 mechanism model; its failure means the model (or a constant) was changed: exit 2"""
+    r = core.run_tlc(work, name, spec, cfg, workers=workers or core.NCPU, tag="mech-" + name, timeout=timeout)
+    if not r["ok"]:
+        raise HarnessError("%s fails its own invariants at small scope - the model is wrong or was changed:\n%s" % (spec, r["out"][-2500:]))
+    return dict(name=what, generated=r["generated"], distinct=r["distinct"], wall=r["wall"], ok=True)
+
+
+def cyclebreak_model(work, tier):
+    n, m = (4, 5) if tier == "quick" else (5, 6)
+    return mech_model(work, "CycleBreak", "CycleBreak.tla",
+                      "SPECIFICATION Spec\nCONSTANTS NN = %d MM = %d\nINVARIANTS ResultAcyclic GreedyPlacesAll DagUntouched DfsIrredundant ListsStayConsistent OnlyFlips\nCHECK_DEADLOCK FALSE\n" % (n, m),
+                      "CycleBreak.tla: both breakers on every connected loop-free multigraph with <= %d nodes / %d edges (ResultAcyclic, GreedyPlacesAll, DagUntouched, DfsIrredundant, ListsStayConsistent, OnlyFlips)" % (n, m))
+
+
+def netsimplex_model(work, tier):
+    n, m = (4, 5) if tier == "quick" else (5, 6)
+    return mech_model(work, "NetSimplex", "NetSimplex.tla",
+                      ("SPECIFICATION Spec\nCONSTANTS NN = %d MM = %d Thoroughness = 28 Parallel = TRUE ACCUMULATE = FALSE RESET_TREE = TRUE\n"
+                       "INVARIANTS FeasibleInv TreeIsSpanning CutValuesRight NoPanic Optimal NotStuck Contiguous\nPROPERTIES ObjectiveNeverIncreases\nCHECK_DEADLOCK FALSE\n") % (n, m),
+                      "NetSimplex.tla: every connected DAG multigraph with <= %d nodes / %d edges, one loop iteration per step (FeasibleInv, TreeIsSpanning, CutValuesRight, NoPanic, Optimal vs brute force, NotStuck, Contiguous, ObjectiveNeverIncreases)" % (n, m))
+
+
+def position_model(work, tier):
+    k = 4 if tier == "quick" else 5
+    return mech_model(work, "Position", "Position.tla",
+                      ("SPECIFICATION Spec\nCONSTANTS Layers = 3 MaxPer = 2 MaxNodes = %d Widths = {0, 2, 6} MaxIn = 2 NS = 1\n"
+                       "INVARIANTS SinkTerminates SinkSeparates SinkKeepsOrder ExactSpacing VAlignCentres PackRightAligns VAlignLeftmostZero\nCHECK_DEADLOCK FALSE\n") % k,
+                      "Position.tla: SinkColoring / VAlign / PackRight on every proper layered graph with 3 layers, <= %d nodes, widths {0,2,6} (SinkTerminates, SinkSeparates, SinkKeepsOrder, ExactSpacing, VAlignCentres, PackRightAligns)" % k,
+                      workers=4)
 
 
 def merge_results(a, b):
